@@ -170,6 +170,11 @@ func (v *VM) SetIsHardforkEnabled(f func(config.Hardfork) bool) {
 func (v *VM) SetGasLimit(datoshi int64) {
 	v.gasLimit = datoshi
 	if datoshi > 0 {
+		// The limit is kept in picoGAS units. Saturate it instead of letting the
+		// multiplication overflow: a negative limit means "no limit at all".
+		if datoshi > math.MaxInt64/ExecFeeFactorMultiplier {
+			v.gasLimit = math.MaxInt64 / ExecFeeFactorMultiplier
+		}
 		v.gasLimit *= ExecFeeFactorMultiplier
 	}
 }
